@@ -236,8 +236,21 @@ pub struct PageState {
 
 // ---------------------------------------------------------------------------------- world
 
+/// What keeps a reader's snapshot alive: the read transaction itself, or - the transaction handle
+/// and the table handle having been dropped - only an owned iterator and an owned value guard
+/// (C02: "including the owned ones that outlive the transaction handle")
+pub(crate) enum Handle {
+    Txn(ReadTransaction),
+    Owned {
+        it: redb::OwnedRange<u64, &'static [u8]>,
+        /// what the iterator still has to yield, in order
+        rest: std::collections::VecDeque<(u64, Vec<u8>)>,
+        guard: Option<(redb::OwnedAccessGuard<&'static [u8]>, Vec<u8>)>,
+    },
+}
+
 pub(crate) struct Reader {
-    rt: ReadTransaction,
+    h: Handle,
     expect: Model,
     root: VerifRoot,
     id: u64,
@@ -576,14 +589,48 @@ impl World {
 
     /// S for C02: every live reader and savepoint still shows the contents captured at its start
     pub(crate) fn check_pinned_contents(&mut self, out: &mut Out, after: &str) {
-        for r in &self.readers {
-            match read_all(&r.rt) {
-                Ok(m) => {
-                    if m != r.expect {
-                        out.oracle_fail(format!("reader-snapshot-changed|after {after}: reader begun at transaction {} now shows {} instead of {}", r.id, m.digest(), r.expect.digest()));
+        for r in self.readers.iter_mut() {
+            match &mut r.h {
+                Handle::Txn(rt) => match read_all(rt) {
+                    Ok(m) => {
+                        if m != r.expect {
+                            out.oracle_fail(format!("reader-snapshot-changed|after {after}: reader begun at transaction {} now shows {} instead of {}", r.id, m.digest(), r.expect.digest()));
+                        }
                     }
+                    Err(e) => out.oracle_fail(format!("reader-snapshot-unreadable|after {after}: reader begun at transaction {}: {e}", r.id)),
+                },
+                Handle::Owned { it, rest, guard } => {
+                    // the owned iterator goes on where it stopped and yields what the snapshot held
+                    for _ in 0..3 {
+                        let want = rest.pop_front();
+                        let got = match it.next() {
+                            None => None,
+                            Some(Ok((k, v))) => Some((k.value(), v.value().to_vec())),
+                            Some(Err(e)) => {
+                                out.oracle_fail(format!("owned-iterator-unreadable|after {after}: owned range of the reader begun at transaction {}: {e:?}", r.id));
+                                break;
+                            }
+                        };
+                        if got != want {
+                            out.oracle_fail(format!(
+                                "owned-iterator-changed|after {after}: the owned range of the reader begun at transaction {} yields {:?}, its snapshot holds {:?} next",
+                                r.id,
+                                got.as_ref().map(|x| (x.0, x.1.len())),
+                                want.as_ref().map(|x| (x.0, x.1.len()))
+                            ));
+                            break;
+                        }
+                        if want.is_none() {
+                            break;
+                        }
+                    }
+                    if let Some((g, want)) = guard {
+                        if g.value() != want.as_slice() {
+                            out.oracle_fail(format!("owned-guard-changed|after {after}: the owned value guard of the reader begun at transaction {} changed", r.id));
+                        }
+                    }
+                    out.count("owned_reader_rechecks");
                 }
-                Err(e) => out.oracle_fail(format!("reader-snapshot-unreadable|after {after}: reader begun at transaction {}: {e}", r.id)),
             }
             out.count("reader_rechecks");
         }
@@ -938,7 +985,28 @@ impl World {
                     Err(e) => out.oracle_fail(format!("reader-unreadable|{e}")),
                 }
                 let fp = self.db().verif_tree_fingerprint(snap.mem.latest_data_root).unwrap_or(0);
-                self.readers.push(Reader { rt, expect: self.committed.clone(), root: snap.mem.latest_data_root, id: snap.mem.latest_transaction_id, fp });
+                // every third reader lives on only through owned objects: the table handle and the
+                // transaction handle are dropped at once
+                let t = self.step_no % 2;
+                let mut h = None;
+                if self.step_no % 3 == 0 {
+                    if let Ok(tb) = rt.open_table(tdef(t)) {
+                        let rest: std::collections::VecDeque<(u64, Vec<u8>)> = self.committed.t[t].iter().map(|(k, v)| (*k, v.clone())).collect();
+                        let guard = rest.back().and_then(|(k, v)| tb.get_owned(*k).ok().flatten().map(|g| (g, v.clone())));
+                        if let Ok(it) = tb.range_owned::<u64>(..) {
+                            h = Some(Handle::Owned { it, rest, guard });
+                            out.count("owned_readers");
+                        }
+                    }
+                }
+                let h = match h {
+                    Some(h) => {
+                        drop(rt);
+                        h
+                    }
+                    None => Handle::Txn(rt),
+                };
+                self.readers.push(Reader { h, expect: self.committed.clone(), root: snap.mem.latest_data_root, id: snap.mem.latest_transaction_id, fp });
                 "ok".into()
             }
             Err(e) => format!("err:{}", crate::table::err_tag(e)),
